@@ -31,6 +31,7 @@ fn main() {
     let scale: u64 = std::env::var("VERIF_SCALE").ok().and_then(|s| s.parse().ok()).unwrap_or(1);
     println!("{prop} tier={tier} seed={root} workers={workers}");
     let code = match prop.as_str() {
+        "calibrate" => calibrate(root, args.get(1).and_then(|s| s.parse().ok()).unwrap_or(24)),
         "C12" => run_c12(&tier, root, workers, scale),
         "C13" => run_c13(&tier, root, workers, scale),
         _ => {
@@ -169,4 +170,105 @@ fn replay(prop: &str, path: &str) -> i32 {
             1
         }
     }
+}
+
+/// Shim calibration: a sample of C12 and C13 worlds is run under `strace -f` as well; every open-, read-,
+/// write- and stat-class system call strace sees on a watched path / fd 0 / fd 1 must appear in the shim log.
+/// A gap means injection could be silently inert: harness error (exit 2), never a violation.
+fn calibrate(root: u64, n: u64) -> i32 {
+    use std::collections::BTreeMap;
+    let mut checked = 0u64;
+    let mut calls = 0u64;
+    for i in 0..n {
+        let worlds = vec![c12::gen_world(rng::run_seed(root, "sim-cli-c12", i)).world, c13::gen_world(rng::run_seed(root, "sim-cli-c13", i)).world];
+        for w in worlds {
+            let trace_path = cliworld::scratch_root().with_file_name("strace.out");
+            let _ = std::fs::remove_file(&trace_path);
+            let out = cliworld::run_world_opt(&w, &[], Some(&trace_path));
+            let text = std::fs::read_to_string(&trace_path).unwrap_or_default();
+            let rootp = out.root.clone();
+            // strace side: count calls per (class, target)
+            let mut fds: BTreeMap<(String, i64), String> = BTreeMap::new();
+            let mut seen: BTreeMap<(String, String), i64> = BTreeMap::new();
+            for line in text.lines() {
+                let Some((pid, rest)) = line.split_once(' ') else { continue };
+                let rest = rest.trim_start();
+                let Some(p) = rest.find('(') else { continue };
+                let name = &rest[..p];
+                // strace pads between ")" and "=": split at the last " = ", then cut the closing parenthesis
+                let Some((before, ret)) = rest[p + 1..].rsplit_once(" = ") else { continue };
+                let Some(close) = before.rfind(')') else { continue };
+                let args = &before[..close];
+                let retv: i64 = ret.split_whitespace().next().and_then(|r| r.parse().ok()).unwrap_or(-1);
+                let path_arg = |a: &str| -> Option<String> {
+                    let q1 = a.find('"')?;
+                    let q2 = a[q1 + 1..].find('"')? + q1 + 1;
+                    Some(a[q1 + 1..q2].to_string())
+                };
+                let watched = |p: &str| -> Option<String> {
+                    let abs = if p.starts_with('/') { p.to_string() } else { format!("{rootp}/{p}") };
+                    abs.strip_prefix(&format!("{rootp}/")).map(norm_dots)
+                };
+                match name {
+                    "open" | "openat" | "creat" => {
+                        // strace -s 0 prints paths in full (only data buffers are cut)
+                        if let Some(t) = path_arg(args).and_then(|p| watched(&p)) {
+                            *seen.entry(("open".into(), t.clone())).or_insert(0) += 1;
+                            if retv >= 0 {
+                                fds.insert((pid.to_string(), retv), t);
+                            }
+                        }
+                    }
+                    "read" | "readv" | "pread64" | "write" | "writev" | "pwrite64" => {
+                        let fd: i64 = args.split(',').next().and_then(|f| f.trim().parse().ok()).unwrap_or(-1);
+                        let class = if name.starts_with('r') || name == "pread64" { "read" } else { "write" };
+                        let t = if fd == 0 && class == "read" { Some("fd:0".to_string()) } else if fd == 1 && class == "write" { Some("fd:1".to_string()) } else { fds.get(&(pid.to_string(), fd)).cloned() };
+                        if let Some(t) = t {
+                            *seen.entry((class.into(), t)).or_insert(0) += 1;
+                        }
+                    }
+                    "stat" | "lstat" | "newfstatat" | "statx" => {
+                        if let Some(t) = path_arg(args).filter(|p| !p.is_empty()).and_then(|p| watched(&p)) {
+                            *seen.entry(("stat".into(), t)).or_insert(0) += 1;
+                        }
+                    }
+                    _ => {}
+                }
+            }
+            // shim side
+            let mut logged: BTreeMap<(String, String), i64> = BTreeMap::new();
+            for l in &out.log {
+                let t = norm_dots(l.target.strip_prefix("path:").unwrap_or(&l.target));
+                *logged.entry((l.op.clone(), t)).or_insert(0) += 1;
+                if l.op == "realpath" {
+                    // glibc's realpath stats/readlinks internally without passing through the PLT
+                    *logged.entry(("stat".into(), l.target.strip_prefix("path:").unwrap_or(&l.target).to_string())).or_insert(0) += 64;
+                }
+            }
+            for ((class, target), n_strace) in &seen {
+                calls += *n_strace as u64;
+                let n_shim = logged.get(&(class.clone(), target.clone())).copied().unwrap_or(0);
+                // realpath walks the path components with lstat/readlink inside libc: tolerated for stat class on any prefix
+                let covered_by_realpath = class == "stat" && out.log.iter().any(|l| l.op == "realpath");
+                if n_shim < *n_strace && !covered_by_realpath {
+                    eprintln!("HARNESS ERROR: shim calibration: strace saw {n_strace} {class} call(s) on {target:?}, the shim logged {n_shim} (world {i}, argv {:?})", w.argv);
+                    return 2;
+                }
+            }
+            if std::env::var("VERIF_DEBUG").is_ok() {
+                eprintln!("world {i}: strace {:?}\n          shim {:?}", seen, logged);
+            }
+            checked += 1;
+        }
+    }
+    println!("shim calibration: {checked} worlds, {calls} system calls on watched paths / fd 0 / fd 1 seen by strace, all present in the shim log");
+    0
+}
+
+/// drops "." and empty components (".." is kept: collapsing it across symlinks would rename the file)
+fn norm_dots(p: &str) -> String {
+    if p.starts_with("fd:") {
+        return p.to_string();
+    }
+    p.split('/').filter(|c| !c.is_empty() && *c != ".").collect::<Vec<_>>().join("/")
 }
